@@ -46,7 +46,7 @@ def make_document(rng: random.Random, *, canonical_only: bool = False, **kw):
     kw.setdefault("comment_rate", rng.choice([1.0, 1.0, 1.0, 3.0, 5.0]))
     text, doc = E.canonical_doc(rng, **kw)
     canonical = True
-    if rng.random() < 0.03:
+    if rng.random() < 0.05:
         # boundary: a body set without bindings, with and without comments around it
         text = rng.choice(EMPTY_BODY_DOCS)
     elif rng.random() < 0.03 and not canonical_only:
